@@ -154,8 +154,18 @@ def run(tier, seed):
     fresh = 0
     from pyexp import mutants
     t10, z10, l10 = mutants.link_source()          # names with '-', '_', '+', links in every relation to zones
-    for src_text, scope in [(text, 'extended'), (text, 'basic'), (t10, 'extended'), (t10, 'basic')]:
-        comp = pipeline.compile_text(src_text, scope)
+    # two names with the same djb2 value ('az' and 'bY' contribute 33*97+122 = 33*98+89): the compiler must refuse the source
+    # (it raises 'Hash collision') or emit unique ids - never two zones with one id
+    tcol = 'Zone\tDemo/Caz\t1:00\t-\tCAZ\nZone\tDemo/CbY\t2:00\t-\tCBY\nZone\tDemo/Other\t3:00\t-\tOTH\n'
+    assert djb2('Demo/Caz') == djb2('Demo/CbY')
+    refused = 0
+    for src_text, scope in [(text, 'extended'), (text, 'basic'), (t10, 'extended'), (t10, 'basic'), (tcol, 'extended'), (tcol, 'basic')]:
+        try:
+            comp = pipeline.compile_text(src_text, scope)
+        except Exception as e:
+            if src_text is tcol and 'ollision' in str(e):
+                refused += 1; continue
+            raise
         d = tempfile.mkdtemp(prefix='verif-c11-')
         try:
             pipeline.generate(comp, 'arduino', d, db_namespace='vdb', buf_sizes={z: 7 for z in comp.tzdb['zones_map']})
@@ -181,6 +191,7 @@ def run(tier, seed):
         hl = dict((m.group(1), m.group(2)) for m in re.finditer(r'extern const \S+ZoneInfo& kZone\w+; // (\S+) -> (\S+)', hdr))
         if hl != dict(comp.tzdb['links_map']): rep.violation('c11:fresh-source:links-differ', {'scope': scope, 'only_header': sorted(set(hl) - set(comp.tzdb['links_map']))[:3], 'only_emitted': sorted(set(comp.tzdb['links_map']) - set(hl))[:3]})
     rep.coverage['fresh_source_zones'] = fresh
+    rep.coverage['colliding_name_sources_refused'] = refused
     n_eval += fresh
     rep.assumptions += ['id_baseline.json is the committed name -> id snapshot (ids are a pure function of the name, so stability <=> function and names unchanged)',
                         'freshly compiled sources = the vendored 2025b release and the S10 link source (names with - _ +, chained / duplicate / dangling links) through the real pipeline and ArduinoGenerator, both scopes, read back from the compiled tables']
